@@ -13,24 +13,26 @@ CONSTANTS Hnd, Buffered,   \* Buffered : [Hnd -> BOOLEAN]  (bufsize large vs. -1
 VARIABLES file,   \* set of committed record ids <<session, j>>
           left,   \* [Hnd -> set of ids still queued after a failed flush] ("retained" branch)
           ns,     \* sessions so far
+          torn,   \* the file ends with a partial record (a write of the file stream itself failed half way)
           lockfree, last
-vars == <<file, left, ns, lockfree, last>>
-sv == <<file, left, ns, lockfree>>
+vars == <<file, left, ns, torn, lockfree, last>>
+sv == <<file, left, ns, torn, lockfree>>
 
-Init == file = {} /\ left = [h \in Hnd |-> {}] /\ ns = 0 /\ lockfree = TRUE /\ last = [act |-> "init"]
+Init == file = {} /\ left = [h \in Hnd |-> {}] /\ ns = 0 /\ torn = FALSE /\ lockfree = TRUE /\ last = [act |-> "init"]
 
 Ids(s, a, b) == {<<s, j>> : j \in a..b}
 WFaults(n) == {[f |-> "none", at |-> 0], [f |-> "begin", at |-> 0], [f |-> "end", at |-> 0]}
               \cup {[f |-> "body", at |-> j] : j \in 0..n}        \* user code raises after j puts
               \cup {[f |-> "enc", at |-> j] : j \in 1..n}         \* the value encoder raises at put j
               \cup {[f |-> "write", at |-> j] : j \in 1..n}       \* the backend write of item j raises
+              \cup {[f |-> "stream", at |-> j] : j \in 1..n}      \* the file stream raises half way through record j (e.g. ENOSPC)
 RFaults == {[f |-> "none", at |-> 0], [f |-> "begin", at |-> 0], [f |-> "end", at |-> 0], [f |-> "body", at |-> 0]}
 
 Leak(flt) == "FlushFailureKeepsLock" \in Deviations /\ flt.f \in {"end", "begin"}
 
 RSess(h, flt) ==
   /\ ns < MaxSess /\ lockfree
-  /\ ns' = ns + 1 /\ UNCHANGED <<file, left>>
+  /\ ns' = ns + 1 /\ UNCHANGED <<file, left, torn>>
   /\ lockfree' = ~Leak(flt)
   /\ last' = [act |-> "sess", h |-> h, kind |-> "r", n |-> 0, fault |-> flt.f, at |-> flt.at,
               out |-> IF flt.f = "none" THEN "ok" ELSE "Injected",
@@ -45,9 +47,12 @@ WSess(h, n, flt) ==
                    [] flt.f = "body"  -> flt.at
                    [] flt.f = "enc"   -> flt.at - 1
                    [] flt.f = "write" -> flt.at - 1
+                   [] flt.f = "stream" -> flt.at - 1
          flushes == flt.f # "begin"                                  \* flush() runs in the finally clause
-         rest == IF flt.f = "write" /\ Buffered[h] THEN Ids(s, flt.at + 1, n) ELSE {}
+         rest == IF flt.f \in {"write", "stream"} /\ Buffered[h] THEN Ids(s, flt.at + 1, n) ELSE {}
      IN /\ ns' = s
+        (* an append session that gets as far as opening the file discards a torn tail; a failing stream leaves one *)
+        /\ torn' = IF flt.f = "stream" THEN TRUE ELSE IF flt.f = "begin" THEN torn ELSE FALSE
         /\ \E keep \in BOOLEAN :                                     \* leftovers of a failed flush: retained or dropped
              /\ file' = file \cup Ids(s, 1, npre) \cup (IF flushes THEN left[h] ELSE {})
              /\ left' = [left EXCEPT ![h] = IF keep THEN (IF flushes THEN rest ELSE @ \cup rest) ELSE {}]
@@ -61,7 +66,7 @@ Next == \E h \in Hnd : \/ \E flt \in RFaults : RSess(h, flt)
                        \/ \E n \in 1..MaxPuts : \E flt \in WFaults(n) : WSess(h, n, flt)
 Spec == Init /\ [][Next]_vars
 
-Obs == [file |-> file, lockfree |-> lockfree]
+Obs == [file |-> file, lockfree |-> lockfree, torn |-> torn]
 LockAlwaysFree == lockfree
 Monotone == [][file \subseteq file']_vars
 H2 == {"h1", "h2"}
